@@ -14,6 +14,7 @@ import (
 	"os"
 	"regexp"
 	"runtime"
+	"runtime/debug"
 	"runtime/metrics"
 	"sort"
 	"strings"
@@ -54,8 +55,20 @@ type Finding struct {
 	Raw   string `json:"raw"`   // full message
 }
 
+// genReaders is the known-finding id of one structural class of allocation findings: the bytes
+// were allocated by one of the generated table readers (font/opentype/tables/*_gen.go). These
+// readers decode every referenced subtable eagerly and bound each single array by the table
+// length, so records whose offsets point at overlapping data multiply the total (quadratic in the
+// table size). Which Parse* function tops the profile depends on the input, hence one id.
+const genReaders = "C09-alloc:generated-readers-overlapping-offsets"
+
 // ID is the known-finding identifier of the site: C09-<kind>:<site>.
-func (f *Finding) ID() string { return "C09-" + f.Kind + ":" + f.Site }
+func (f *Finding) ID() string {
+	if f.Kind == "alloc" && strings.Contains(f.Where, "_gen.go:") && strings.HasPrefix(f.Site, "font/opentype/tables.") {
+		return genReaders
+	}
+	return "C09-" + f.Kind + ":" + f.Site
+}
 
 func (f *Finding) String() string {
 	return fmt.Sprintf("%s in step %q at %s (%s): %s", f.Kind, f.Step, f.Site, f.Where, f.Raw)
@@ -146,6 +159,7 @@ type runner struct {
 	finding *Finding
 	steps   int
 	maxStep uint64 // largest per-step allocation seen
+	total   uint64 // bytes allocated by all the steps
 }
 
 // do executes one step under recover and allocation accounting; returns false if it violated.
@@ -159,12 +173,20 @@ func (r *runner) do(step string, f func()) (ok bool) {
 		if rec := recover(); rec != nil {
 			site, where := panicSite()
 			raw := fmt.Sprint(rec)
+			if os.Getenv("C09_STACK") != "" { // triage aid
+				fmt.Fprintf(os.Stderr, "panic: %s\n%s\n", raw, debug.Stack())
+			}
 			r.finding = &Finding{Kind: "panic", Step: step, Site: site, Where: where, Msg: msgClass(raw), Raw: raw}
 			ok = false
 		}
 	}()
+	t0 := time.Now()
 	f()
 	d := totalAlloc() - a0
+	if dt := time.Since(t0); dt > 10*time.Millisecond && os.Getenv("C09_STACK") != "" { // triage aid
+		fmt.Fprintf(os.Stderr, "step %s: %s, %d bytes allocated\n", step, dt, d)
+	}
+	r.total += d
 	if d > r.maxStep {
 		r.maxStep = d
 	}
@@ -187,6 +209,7 @@ type outcome struct {
 	Finding *Finding
 	Steps   int
 	MaxStep uint64
+	Alloc   uint64 // bytes allocated by all the steps (a deterministic proxy of the cost of the case)
 	Wall    time.Duration
 }
 
@@ -459,7 +482,7 @@ func runData(data []byte) outcome {
 	loaded, nf := loadAndQuery(data, r)
 	caseStart.Store(0)
 	wall := time.Since(t0)
-	out := outcome{Loaded: loaded, Faces: nf, Finding: r.finding, Steps: r.steps, MaxStep: r.maxStep, Wall: wall}
+	out := outcome{Loaded: loaded, Faces: nf, Finding: r.finding, Steps: r.steps, MaxStep: r.maxStep, Alloc: r.total, Wall: wall}
 	if out.Finding == nil && runtime.NumGoroutine() > g0 {
 		for k := 0; k < 50 && runtime.NumGoroutine() > g0; k++ {
 			time.Sleep(2 * time.Millisecond)
